@@ -15,8 +15,8 @@ def dec_line(code):
 class Prop(SeqProp):
     pid = "C15"
     anchors = ["windpyutils/buffers.py", "windpyutils/structures/circular_buffer.py"]
-    quick_cases = 2400
-    thorough_cases = 6000
+    quick_cases = 6000
+    thorough_cases = 60000
     rule = ("Buffer/PrintBuffer: random permutations of 0..n-1 (n<=12) with drain points / flush / clear / re-put of an emitted "
             "serial interleaved (thorough: all permutations up to n=6 with all drain-point subsets, exhaustive); CircularBuffer: "
             "capacities 1-6 with random put/clear/get/list; every result compared with the Lean model and a reference; "
@@ -132,6 +132,7 @@ class Prop(SeqProp):
         sio = io.StringIO()
         obj = Buffer() if kind == "buf" else PrintBuffer(sio) if kind == "pbuf" else CircularBuffer(1)
         out = []
+        ring_hist, ring_cap = [], 1
         s = lambda xs: ",".join(map(str, xs))
         for op in case.ops:
             w = op.split()
@@ -170,10 +171,13 @@ class Prop(SeqProp):
                 else:
                     if w[0] == "new":
                         obj = CircularBuffer(int(w[1])); out.append("ok")
+                        ring_hist, ring_cap = [], int(w[1])
                     elif w[0] == "put":
                         obj.put(dec_val(int(w[1]))); out.append("ok")
+                        ring_hist.append(dec_val(int(w[1])))
                     elif w[0] == "clear":
                         obj.clear(); out.append("ok")
+                        ring_hist = []
                     elif w[0] == "get":
                         out.append(f"ret {enc_val(obj[int(w[1])])}")
                     elif w[0] == "len":
@@ -181,6 +185,14 @@ class Prop(SeqProp):
                     elif w[0] == "list":
                         items = list(itertools.islice(iter(obj), 10000))
                         out.append("list " + s(enc_val(x) for x in items) + (",?endless" if len(items) == 10000 else ""))
+                        # the inherited Sequence interface (index with bounds, count, in, reversed) beside the list of the
+                        # last min(k, c) items
+                        from .. import mixins
+                        view = ring_hist[-ring_cap:] if ring_hist else []
+                        mix = mixins.sequence_battery(obj, view, view[:2] + view[-1:] + [dec_val(7), "absent"],
+                                                     negative_index=False)
+                        if mix is not None:
+                            out[-1] = "mixin-mismatch " + mix + " ;; " + out[-1]
                     else:
                         out.append("bad-op")
             except BaseException as e:  # noqa
@@ -191,6 +203,9 @@ class Prop(SeqProp):
 
     def oracle(self, case, impl_out):
         kind = case.meta["kind"]
+        for i, line in enumerate(impl_out):
+            if line.startswith("mixin-mismatch "):
+                return f"op {i} `{case.ops[i]}`: inherited Sequence interface: {line[15:].split(' ;; ')[0][:600]}"
         s = lambda xs: ",".join(map(str, xs))
         if kind == "buf":
             pending, emitted = {}, 0
